@@ -138,6 +138,14 @@ pub fn page(cx: &Cx, w: u32, h: u32) -> Page<'static> {
         2 => {
             let mut p = Page::new(PageId(cx.draw(256) as u8), w, h);
             p.set_all_pixels(true);
+            if w > 0 && h > 0 {
+                // ... with a few pixels switched off again
+                for _ in 0..cx.draw(4) {
+                    let x = cx.draw(u64::from(w)) as u32;
+                    let y = cx.draw(u64::from(h)) as u32;
+                    p.set_pixel(x, y, false);
+                }
+            }
             p
         }
         _ => {
